@@ -328,7 +328,7 @@ theorem setF_replayD (D : Defs) (op : OpInst) (fmt : List Dir) (K : List Cls) (s
         · exact mem_all hf2 h
       have hwf0 := hwf
       simp only [wfD, Bool.and_eq_true] at hwf
-      obtain ⟨⟨⟨⟨⟨⟨⟨⟨⟨⟨_, _⟩, _⟩, _⟩, hing⟩, hinge⟩, _⟩, _⟩, _⟩, _⟩, hwfds⟩ := hwf
+      obtain ⟨⟨⟨⟨⟨⟨⟨⟨⟨_, _⟩, _⟩, _⟩, hing⟩, hinge⟩, _⟩, _⟩, _⟩, hwfds⟩ := hwf
       simp only [bindsD, Bool.or_eq_true] at hb
       rcases hb with (hb | hb) | hb
       · -- bound in the then-branch
